@@ -6,6 +6,7 @@
   t3-ndef-write      attribute block unreadable (3 time-outs) -> TypeError in _write_ndef_data (tt3.py:229-230)
   t3-format          3 time-outs on one probing read -> format() returns True with a wrong attribute block
   lites-protect      FeliCa Lite-S protect(): NDEF detection fails 3 times -> True, attribute block not made read-only
+  lites-ndef-raises  FeliCa Lite-S authenticated: tag.ndef raises Type3TagCommandError instead of giving None
 Exit code 1 = defect reproduced, 0 = not reproduced.
 """
 import sys
@@ -93,10 +94,20 @@ def lites_protect():
     return clf.ev[-1]["kind"] == "ok" and clf.ev[-1]["val"] == "True"
 
 
+def lites_ndef_raises():
+    from bind import c16
+    sc = dict(p=3, k="timeout", b=3, m="before")
+    fac = lambda: c16.make_lite("lites")                                                    # noqa: E731
+    proto, nretry, clf, sim, tag = c16.run_one(fac, c16.authenticated, lambda t: t.ndef, sc)
+    print("FeliCa Lite-S, authenticated; tag.ndef: the 3rd command (MC block read in _read_attribute_data) times out 3 times")
+    print("tag.ndef ended with:", clf.ev[-1])
+    return clf.ev[-1]["kind"] != "ok"
+
+
 if __name__ == "__main__":
     name = sys.argv[1] if len(sys.argv) > 1 else ""
     fn = {"t2-sector-select": t2_sector_select, "t3-ndef-write": t3_ndef_write, "t3-format": t3_format,
-          "lites-protect": lites_protect}.get(name)
+          "lites-protect": lites_protect, "lites-ndef-raises": lites_ndef_raises}.get(name)
     if fn is None:
         raise SystemExit(__doc__)
     bad = fn()
